@@ -417,15 +417,24 @@ func runCheck(args []string) int {
 			}
 		}
 
-		// violations: replay natively before reporting
-		seen := map[string]bool{}
+		// violations: replay natively before reporting. Several counterexamples may share a
+		// label; up to 6 per label are tried until one reproduces (a counterexample that leans on
+		// a stub behaving unlike the real thing does not reproduce and is skipped).
+		byLabel := map[string][]interp.ViolationInfo{}
+		var labelOrder []string
 		for _, v := range r.ViolationInfos() {
-			if seen[v.Label] {
-				continue
+			if _, ok := byLabel[v.Label]; !ok {
+				labelOrder = append(labelOrder, v.Label)
 			}
-			seen[v.Label] = true
-			rp := writeReplay(*prop, h, tier, v.Label, v.Detail, v.Model, v.Choices, v.Observes, v.Decisions, true)
+			if len(byLabel[v.Label]) < 6 {
+				byLabel[v.Label] = append(byLabel[v.Label], v)
+			}
+		}
+		for _, label := range labelOrder {
+			cands := byLabel[label]
 			if *noNative || h.NoNative {
+				v := cands[0]
+				rp := writeReplay(*prop, h, tier, v.Label, v.Detail, v.Model, v.Choices, v.Observes, v.Decisions, true)
 				if h.NoNative {
 					lines = append(lines, fmt.Sprintf("VIOLATION property=%s replay=%s", *prop, rp))
 					lines = append(lines, fmt.Sprintf("  harness=%s label=%q detail=%q (not replayable natively: %s)", h.Name, v.Label, v.Detail, h.NoNativeWhy))
@@ -436,20 +445,33 @@ func runCheck(args []string) int {
 				}
 				continue
 			}
-			nr, err := nb.replay(h.Pkg, rp)
-			if err != nil {
-				lines = append(lines, "INCONCLUSIVE native build: "+err.Error())
-				inconclusive++
-				continue
+			confirmedAny := false
+			var lastNR nativeResult
+			var lastRP string
+			buildErr := false
+			for _, v := range cands {
+				rp := writeReplay(*prop, h, tier, v.Label, v.Detail, v.Model, v.Choices, v.Observes, v.Decisions, true)
+				nr, err := nb.replay(h.Pkg, rp)
+				if err != nil {
+					lines = append(lines, "INCONCLUSIVE native build: "+err.Error())
+					inconclusive++
+					buildErr = true
+					break
+				}
+				confirmed := labelMatches(nr.Violations, v.Label) || (v.Label == "uncaught-panic" && nr.Panic != "") || (strings.HasPrefix(v.Label, "engine:") && (nr.Panic != "" || len(nr.Violations) > 0))
+				if confirmed {
+					confirmedAny = true
+					violations++
+					lines = append(lines, fmt.Sprintf("VIOLATION property=%s replay=%s", *prop, rp))
+					lines = append(lines, fmt.Sprintf("  harness=%s label=%q detail=%q model=%v choices=%v", h.Name, v.Label, v.Detail, trimModel(v.Model), v.Choices))
+					break
+				}
+				os.Remove(rp)
+				lastNR, lastRP = nr, rp
 			}
-			confirmed := labelMatches(nr.Violations, v.Label) || (v.Label == "uncaught-panic" && nr.Panic != "") || (strings.HasPrefix(v.Label, "engine:") && nr.Panic != "")
-			if confirmed {
-				violations++
-				lines = append(lines, fmt.Sprintf("VIOLATION property=%s replay=%s", *prop, rp))
-				lines = append(lines, fmt.Sprintf("  harness=%s label=%q detail=%q model=%v choices=%v", h.Name, v.Label, v.Detail, v.Model, v.Choices))
-			} else {
+			if !confirmedAny && !buildErr {
 				inconclusive++
-				lines = append(lines, fmt.Sprintf("INCONCLUSIVE (encoder) harness=%s: counterexample for %q did not reproduce natively (native: violations=%v panic=%q done=%v) replay=%s\n%s", h.Name, v.Label, nr.Violations, nr.Panic, nr.Done, rp, tail(nr.Raw, 12)))
+				lines = append(lines, fmt.Sprintf("INCONCLUSIVE (encoder) harness=%s: %d counterexample(s) for %q did not reproduce natively (last native run: violations=%v panic=%q done=%v) replay=%s\n%s", h.Name, len(cands), label, lastNR.Violations, lastNR.Panic, lastNR.Done, lastRP, tail(lastNR.Raw, 12)))
 			}
 		}
 		// known findings
@@ -545,6 +567,17 @@ func runCheck(args []string) int {
 		return 2
 	}
 	return 0
+}
+
+// trimModel drops the (many) symbolic fill bytes of modelled C allocations from a printed model.
+func trimModel(m map[string]uint64) map[string]uint64 {
+	o := map[string]uint64{}
+	for k, v := range m {
+		if !strings.HasPrefix(k, "cmem#") {
+			o[k] = v
+		}
+	}
+	return o
 }
 
 func max1(n int) int {
